@@ -105,8 +105,14 @@ def _norm(res, norm):
     return (res[0], norm(res[1]) if res[0] == "ok" else res[1])
 
 
-def interleave(a: int, b: int, start: int, p1: int, p2: int, p3: int) -> bool:
+def interleave(a: int, b: int, start: int, p1: int, p2: int, p3: int, p4: int = -1, p5: int = -1) -> bool:
     """
+    pre: p3 < p4 < MAXSTEP or p4 == -1
+    pre: p4 < p5 < MAXSTEP or p5 == -1
+    pre: p4 <= PART.get("p4max", -1)
+    pre: p5 <= PART.get("p4max", -1)
+    pre: p3 >= 0 or p4 == -1
+    pre: p4 >= 0 or p5 == -1
     pre: a == PART.get("a", 0)
     pre: 0 <= b < NOPS
     pre: _b_ok(b)
@@ -122,8 +128,9 @@ def interleave(a: int, b: int, start: int, p1: int, p2: int, p3: int) -> bool:
     """
     ca, cb, cs = concretize(a, NOPS), concretize(b, NOPS), concretize(start, 2)
     c1, c2, c3 = concretize(p1, MAXSTEP + 1, -1), concretize(p2, MAXSTEP + 1, -1), concretize(p3, MAXSTEP + 1, -1)
+    c4, c5 = concretize(p4, MAXSTEP + 1, -1), concretize(p5, MAXSTEP + 1, -1)
     with untraced():
-        return result(_run(ca, cb, cs, [p for p in (c1, c2, c3) if p >= 0]))
+        return result(_run(ca, cb, cs, [p for p in (c1, c2, c3, c4, c5) if p >= 0]))
 
 
 def _run(a, b, start, preempt):
@@ -149,7 +156,7 @@ def _run(a, b, start, preempt):
     return got == want
 
 
-def replay_real(a, b, start, p1, p2, p3):
+def replay_real(a, b, start, p1, p2, p3, p4=-1, p5=-1):
     """Replay on real threads with the UNLOWERED methods under a forced schedule (sys.settrace)."""
     info = _lower()
     ops = _ops()
@@ -158,7 +165,7 @@ def replay_real(a, b, start, p1, p2, p3):
         c, v = _fresh()
         want.append(("ok", ops[o][3](ops[o][2](c, v))))
     c, v = _fresh()
-    rt = sched.RealThreads(info["points"], start, [p for p in (p1, p2, p3) if p >= 0])
+    rt = sched.RealThreads(info["points"], start, [p for p in (p1, p2, p3, p4, p5) if p >= 0])
     res, _steps = rt.run([lambda: ops[a][2](c, v), lambda: ops[b][2](c, v)])
     got = [_norm(res[0], ops[a][3]), _norm(res[1], ops[b][3])]
     return {"real_threads": repr(got), "solo": repr(want), "real_threads_diverge": got != want, "ops": [ops[a][0], ops[b][0]]}
@@ -175,6 +182,8 @@ def plan(tier):
         if quick:
             # every pair with <= 1 preemption; pairs of operations that use the type index with <= 2 preemptions
             jobs.append(Job("interleave", {"a": a, "p2max": -1, "p3max": -1, "maxstep": 26}, 300, 60, note="selector driven, <= 1 preemption"))
+            if a in (8, 9):  # the two short memo operations: every interleaving with <= 5 preemptions
+                jobs.append(Job("interleave", {"a": a, "bs": [b for b in (8, 9) if b >= a], "p2max": 9, "p3max": 9, "p4max": 9, "maxstep": 10}, 400, 60, note="selector driven, <= 5 preemptions"))
             if a in INDEX_USERS:
                 jobs.append(Job("interleave", {"a": a, "bs": [b for b in INDEX_USERS if b >= a], "p2max": 25, "p3max": -1, "maxstep": 26}, 300, 60, note="selector driven, <= 2 preemptions"))
         else:
